@@ -73,6 +73,9 @@ type StdScheduler struct {
 	queueLocker sync.Locker
 	opts        SchedulerConfig
 	logger      logger.Logger
+	// worker pool / blocking execution (see dispatch): the execution loop is blocked while stalled != nil
+	busy    int
+	stalled func()
 }
 
 var _ Scheduler = (*StdScheduler)(nil)
@@ -168,6 +171,9 @@ func (sched *StdScheduler) rearm() {
 	if !sched.started || VAddTimer == nil {
 		return
 	}
+	if sched.stalled != nil {
+		return // the execution loop is blocked handing a job to a worker: nothing is fetched until it gets through
+	}
 	head, err := sched.queue.Head()
 	if err != nil {
 		return
@@ -195,9 +201,46 @@ func (sched *StdScheduler) tick() {
 			ctx = context.WithValue(ctx, JobMetadataContextKey, JobMetadata{RunTime: scheduled.NextRunTime()})
 		}
 		jd := scheduled.JobDetail()
-		VSpawn("quartz-job:"+jd.jobKey.String(), func() { sched.executeWithRetries(ctx, jd) })
+		sched.dispatch(func() { sched.executeWithRetries(ctx, jd) }, "quartz-job:"+jd.jobKey.String())
 	}
 	sched.rearm()
+}
+
+// dispatch models the three execution modes of the real scheduler. Default: one goroutine per firing. WorkerLimit n > 0: the
+// execution loop hands the job to one of n workers and WAITS until one accepts it - while it waits no other job is fetched, and
+// jobs that become overdue by more than OutdatedThreshold in the meantime are treated as misfired when the loop resumes.
+// BlockingExecution: the loop runs the job itself (a pool of one whose job the loop also waits for).
+func (sched *StdScheduler) dispatch(run func(), name string) {
+	limit := sched.opts.WorkerLimit
+	if sched.opts.BlockingExecution {
+		limit = 1
+	}
+	if limit <= 0 {
+		VSpawn(name, run)
+		return
+	}
+	start := func() {
+		sched.busy++
+		VSpawn(name, func() {
+			run()
+			sched.busy--
+			if next := sched.stalled; next != nil {
+				sched.stalled = nil
+				next()
+				sched.rearm()
+			} else if sched.opts.BlockingExecution {
+				sched.rearm()
+			}
+		})
+	}
+	if sched.busy < limit {
+		start()
+		if sched.opts.BlockingExecution {
+			sched.stalled = func() {} // the loop itself is busy until the job returns
+		}
+		return
+	}
+	sched.stalled = start
 }
 
 func (sched *StdScheduler) executeWithRetries(ctx context.Context, jobDetail *JobDetail) {
